@@ -96,21 +96,46 @@ ASSUME = {
 }
 
 
-BH_MIN = 100     # every C09 conjunct must be evaluated at least this often within Band of its own limit
+# ---- vacuity.  Two kinds of floors:
+#  * group-wide floors on what the drivers ISSUED (cases per unit kind, requests per class group) and on the machinery
+#    having recorded anything at all - the code under test cannot move these, so a mutant never turns a sibling
+#    property's "held" into a tool error;
+#  * per-property floors on outcome counts (boundary hits for C09, out-of-grid lookups for C08), applied only when THAT
+#    property is being decided (the framework evaluates vacuity only when the property has no violation).
+OOG = ["f_lo", "f_hi", "g_lo", "g_hi", "e_lo", "e_hi", "rt_lo", "rt_hi", "rs_lo", "rs_hi", "rc_lo", "rc_hi"]
+BH_MIN = 10      # C09: every conjunct evaluated at least this often within Band of its own limit (current tree: >= 600;
+                 # 22 for GenRating under the seeded mutant that unclamps the generator's published limit)
+OOG_MIN = 10     # C08: every map / side looked up at least this often outside its grid on an ACCEPTED step (current tree:
+                 # >= 100; 28 for the generator's upper side under that same mutant)
+IO_MIN = 50      # group-wide: requests ISSUED so as to land outside each map / side (design facts of the generated units)
+IN_MIN = dict(in_conv=100, in_bel=100, in_hyb=100, in_gss=10, in_mapped=40, in_req=5000, in_req_limit=1500,
+              in_req_regen=500, in_req_brake=300, in_req_zero=300, in_eng_off=1000)
 
 
 def _vacuity(r):
     s = r["stats"]
-    need = ["accepted", "rejected", "hist", "exact", "b_checked", "soc_checked", "eng_off", "regen", "dynbrk", "at_limit",
-            "curtailed", "hyb_acc", "hyb_off", "hyb_gss", "rej_over"]
-    zero = [k for k in need if s.get(k, 0) == 0]
-    if zero:
-        return f"trace never exercised: {zero} (stats {s})"
-    thin = {k: s.get("bh_" + k, 0) for k in BH if s.get("bh_" + k, 0) < BH_MIN}
-    if thin:
-        return f"fewer than {BH_MIN} boundary hits for {thin}"
+    low = {k: s.get(k, 0) for k, m in IN_MIN.items() if s.get(k, 0) < m}
+    low.update({"io_" + k: s.get("io_" + k, 0) for k in OOG if s.get("io_" + k, 0) < IO_MIN})
+    if low:
+        return f"the drivers issued too little: {low} (floors {IN_MIN}, out-of-grid requests {IO_MIN} each)"
+    dead = [k for k in ("accepted", "hist", "exact", "b_checked") if s.get(k, 0) == 0]
+    if dead:
+        return f"nothing recorded for {dead}"
     if s.get("hist", 0) < s.get("accepted", 0) // 2:
         return f"walk produced far fewer history records ({s.get('hist')}) than accepted steps ({s.get('accepted')})"
+    return None
+
+
+def _vacuity_pid(pid, r):
+    s = r["stats"]
+    if pid == "C09":
+        thin = {k: s.get("bh_" + k, 0) for k in BH if s.get("bh_" + k, 0) < BH_MIN}
+        if thin:
+            return f"fewer than {BH_MIN} boundary hits for {thin}"
+    if pid == "C08":
+        thin = {k: s.get("oog_" + k, 0) for k in OOG if s.get("oog_" + k, 0) < OOG_MIN}
+        if thin:
+            return f"fewer than {OOG_MIN} out-of-grid efficiency lookups for {thin}"
     return None
 
 
@@ -125,6 +150,9 @@ def _cov_extra(res):
                 known_class_steps_F_C01_1=s.get("curtailed", 0),
                 hybrid_steps=dict(accepted=s.get("hyb_acc", 0), engine_off=s.get("hyb_off", 0), golden_section=s.get("hyb_gss", 0)),
                 boundary_hits={k: s.get("bh_" + k, 0) for k in BH},
+                out_of_grid_hits={k: s.get("oog_" + k, 0) for k in OOG},
+                out_of_grid_issued={k: s.get("io_" + k, 0) for k in OOG},
+                issued={k: s.get(k, 0) for k in IN_MIN},
                 over_limit_requests_rejected=s.get("rej_over", 0), **_ROLL)
 
 
@@ -231,7 +259,7 @@ GROUP = dict(
                      dict(cfg="MCPowerFlow_thorC5.cfg", emit=False, workers=12, timeout=1800),
                      dict(cfg="MCPowerFlow_thorB5.cfg", emit=False, workers=12, timeout=1800)],
     },
-    gen_n={"quick": 180, "thorough": 900},
+    gen_n={"quick": 240, "thorough": 900},
     per_case_ms=20000,
     nontrivial=nontrivial,
     rule=RULE,
@@ -318,6 +346,8 @@ def run(pid, tier, seed, replay, t0):
         if s.get(k, 0):
             print(f"MODEL-DRIFT property={pid} {what}: {s[k]} of {s.get('b_checked', 0)} compared records "
                   f"(Level A intact unless a VIOLATION line follows)")
+    if not replay and not res.get("vacuity_msg"):
+        res["vacuity_msg"] = _vacuity_pid(pid, res)      # raised by decide() only if `pid` has no violation
     rc = group.decide(GROUP, pid, res, tier, seed, t0)
     rc = 1 if (rc or rc2) else 0
     print(f"{pid}: {'VIOLATED' if rc else 'held'} on {res['n_cases']} cases / {res['trace_lines']} trace lines "
